@@ -126,7 +126,8 @@ def origin(annotation: tp.Any) -> tp.Any:
     if not isbuiltintype(actual):
         actual = _check_generics(actual)
 
-    if iscallable(actual):
+    # A class whose instances can be called (it defines `__call__`) is still that class.
+    if iscallable(actual) and not (inspect.isclass(actual) and actual is not abc_Callable):
         actual = tp.Callable
 
     return actual
